@@ -1333,6 +1333,48 @@ def fam_tls(rng, n, dist):
     return out
 
 
+def fam_tlsplain(rng, n, dist):
+    """a client WITH a TLS context on a control connection that is NOT secured: connect() came back with a negative reply
+    (AUTH TLS refused, or a negative greeting) and the application goes on with the same client - login, commands,
+    transfers; or the session was logged out of (REIN drops the TLS layer) and logged in to again, with transfers"""
+    out = []
+    REFUSALS = [500, 502, 504, 530, 534, 431]
+    for i in range(n):
+        mode, rfc = ALL_METHODS[i % 4]
+        how = ["auth-refused", "greeting-refused", "after-rein"][i % 3]
+        b = S.Builder(rng, mode, rfc, type=rng.choice("IIA"), tls=True, resume=(i % 2 == 0), tlsver=rng.choice(["12", "12", "13"]),
+                      verify=rng.choice(["trusted", "none"]))
+        if rng.random() < 0.4:
+            b.add_observer(1)
+        login = (b"user-MARKER-u", b"pass-MARKER-p")
+        if how == "auth-refused":
+            b.connect(login=(login if rng.random() < 0.5 else None), auth=REFUSALS[(i // 3) % len(REFUSALS)])
+        elif how == "greeting-refused":
+            b.connect(login=(login if rng.random() < 0.5 else None), greeting=(rng.choice([530, 550, 500, 451]),))
+        else:
+            b.connect(login=login)
+            if rng.random() < 0.5:
+                add_simple(b, rng, 200)
+            b.logout(codes=rng.choice([(220,), (220,), (120, 220)]))
+        dist.add("tlsplain:%s:resume-%s" % (how, b.cfg["resume"]))
+        # the application goes on
+        b.login(login[0], login[1])
+        for k in range(rng.randrange(1, 4)):
+            kind = rng.choice(["D", "U", "F", "S"])
+            if kind == "S":
+                add_simple(b, rng, 200)
+                continue
+            payload = [b"PAYLOAD-MARKER " * rng.choice([0, 1, 50]), b"z" * rng.choice([0, 1, 9000])]
+            payload = [x for x in payload if x]
+            b.transfer(kind, b"f" if kind != "F" else None, payload_segs=payload, chunks=payload,
+                       cb=rng.choice([None, [False] * 60]) if kind != "F" else None,
+                       refuse_at=rng.choice([None, None, None, "cmd"]))
+            dist.add("tlsplain:transfer-on-a-session-that-is-not-secured")
+        b.disconnect(rng.random() < 0.7)
+        out.append(b.scenario(plain_by=how))
+    return out
+
+
 def fam_reconnect(rng, n, dist, tls_share=0.4):
     """connect / operations / end of session / connect again: the next session must start clean"""
     out = []
@@ -1512,11 +1554,26 @@ def oracle_tls(scn, res):
     v = []
     if not scn["cfg"]["tls"]:
         return v
+    # what the scenario itself prescribes, per session: (command, inside TLS?) - commands the application gives to a client
+    # whose connect() came back with a negative reply are prescribed in clear text, because that is what the code does
+    # (recorded finding: the connection is left open, unsecured, and usable)
+    prescribed, cur = {}, None
+    for e in scn["exp"]:
+        if e.get("kind") == "C" and "session" in e:
+            cur = e["session"]
+        if cur is not None:
+            prescribed.setdefault(cur, []).extend((canon_line(c), bool(e.get("secured"))) for c in e.get("cmds", []))
     for si, log in enumerate(res["peer"]):
         lines = log["lines"]
+        pres = prescribed.get(si, [])
         for k, l in enumerate(lines):
             if l["line"].strip() == b"REIN":
                 break                 # the property is scoped to the span from connect until logout / disconnect
+            if not l["secured"] and l["line"].strip() != b"AUTH TLS" and scn.get("plain_by") in ("auth-refused", "greeting-refused") \
+                    and k < len(pres) and pres[k] == (canon_line(l["line"].rstrip(b"\r\n")), False):
+                v.append((-1, "tls/clear-text-session-after-refused-connect", "session %d: %r travelled unencrypted - connect() had "
+                          "returned a negative reply (%s) and left the connection open" % (si, l["line"][:40], scn["plain_by"])))
+                continue
             if log.get("stayed_plain_from") is not None and k >= log["stayed_plain_from"]:
                 # after a failed handshake: bytes that are no FTP command (a TLS alert) are fine, a command line is not
                 if re.match(rb"[A-Za-z]{3,4}( |\r?\n)", l["line"]):
@@ -1527,6 +1584,10 @@ def oracle_tls(scn, res):
         raw = log.get("raw_in", b"")
         for marker in (b"MARKER-u", b"MARKER-p"):
             if marker in raw:
+                if scn.get("plain_by") == "after-rein" and any(l["line"].strip() == b"REIN" for l in lines):
+                    continue          # (logged in again after REIN: outside the span the property covers)
+                if scn.get("plain_by") in ("auth-refused", "greeting-refused") and any(marker in c and not sec for c, sec in pres):
+                    continue          # (reported above, command by command)
                 v.append((-1, "tls/credentials-in-clear-text", "session %d: %r found in the raw bytes" % (si, marker)))
         if log.get("non_tls_bytes") and not any(l["line"].strip() == b"REIN" for l in lines) and log.get("stayed_plain_from") is None:
             nb = log["non_tls_bytes"]
@@ -1705,7 +1766,7 @@ def fam_dispatch(rng, n, dist):
 
 ORACLES.update(tls=oracle_tls, reuse=oracle_reuse, endpoints=oracle_endpoints)
 
-FAMILIES = dict(mixed=lambda rng, n, dist, th: gen_mixed(rng, "quick", dist, n), observers=lambda r, n, d, th: fam_observers(r, n, d),
+FAMILIES = dict(tlsplain=lambda r, n, d, th: fam_tlsplain(r, n, d), mixed=lambda rng, n, dist, th: gen_mixed(rng, "quick", dist, n), observers=lambda r, n, d, th: fam_observers(r, n, d),
                 abor=lambda r, n, d, th: fam_abor(r, n, d), downloads=fam_downloads, uploads=fam_uploads, ascii=fam_ascii, faults=fam_faults,
                 refusals=lambda r, n, d, th: fam_refusals(r, n, d), cancel=lambda r, n, d, th: fam_cancel(r, n, d),
                 args=lambda r, n, d, th: fam_args(r, n, d), tls=lambda r, n, d, th: fam_tls(r, n, d),
@@ -1724,10 +1785,10 @@ PROPS = {
     "C07": dict(fam=[("refusals", 6), ("mixed", 1)], proj=["out", "io", "held", "wire"], oracles=["transfers", "sockets", "lockstep"]),
     "C12": dict(fam=[("cancel", 5), ("mixed", 1), ("uploads", 1)], proj=["out", "io", "wire"], oracles=["transfers", "commands", "lockstep", "abor_order"]),
     "C17": dict(fam=[("mixed", 3), ("refusals", 1), ("cancel", 1), ("reconnect", 1), ("tls", 2)], proj=["out", "held"], oracles=["sockets"]),
-    "C11": dict(fam=[("tls", 6), ("reconnect", 1)], proj=["out", "state", "wire"], oracles=["tls", "commands"], n=(90, 500)),
+    "C11": dict(fam=[("tls", 6), ("reconnect", 1), ("tlsplain", 1)], proj=["out", "state", "wire"], oracles=["tls", "commands"], n=(90, 500)),
     "C13": dict(fam=[("reconnect", 6), ("tls", 1)], proj=["out", "state", "held", "wire"], oracles=["state", "sockets", "lockstep", "tls"], n=(120, 600)),
     "C18": dict(fam=[("reuse", 1)], proj=["out", "wire"], oracles=["reuse"], n=(60, 300)),
-    "C08": dict(fam=[("faults", 1)], proj=["out", "state"], oracles=["terminates"], n=(120, 600), variant="asan"),
+    "C08": dict(fam=[("faults", 6), ("tlsplain", 1)], proj=["out", "state"], oracles=["terminates"], n=(120, 600), variant="asan"),
     "C05": dict(fam=[("ascii", 1)], proj=["out", "io"], oracles=["transfers"], n=(60, 300)),
     "C06": dict(fam=[("dispatch", 5), ("tls", 1)], proj=["out", "wire", "held"], oracles=["endpoints", "commands"], n=(160, 800)),
 }
